@@ -147,7 +147,7 @@ def cases(seed, tier):
         # each document costs two syscalls (open, write) unless it is large
         for _ in range(rng.choice([1, 1, 2])):
             i = rng.randrange(0, 3 * ndocs + 1)
-            kind = rng.choice(["crash_before", "crash_after", "torn", "enospc", "eio"])
+            kind = rng.choice(["crash_before", "crash_after", "torn", "enospc", "eio", "emfile"])
             f = {"kind": kind}
             if kind == "torn":
                 f["frac"] = rng.choice([0.0, 0.4, 0.95])
